@@ -3,7 +3,7 @@ SPEC = {
     "coq_props": ["Properties/C21.v", "Corr/C21.v"],
     "module": "MS.Properties.C21",
     "theorems": ["C21_run", "C21_partition", "C21_candle", "C21_order_independent", "C21_within_own_window",
-                 "C21_truncate_idem", "C21_refuted"],
+                 "C21_truncate_idem", "C21_refuted", "C21_order_refuted"],
     "corr_require": "Require Import MS.Corr.C21.",
     "agrees": "C21.agrees",
     "in_domain": "C21.in_domain",
@@ -42,8 +42,8 @@ SPEC = {
                   "exactly one candle per window holding rows, strictly ordered by window start (C21_partition), each candle being the "
                   "AddCandle fold of its window's rows, which meets the OHLC specification (C21_candle: open/close = price at an "
                   "earliest/latest timestamp, high/low = extremes, count, float64 sums) and is permutation invariant for distinct "
-                  "timestamps and NaN-free prices (C21_order_independent). C21_refuted exhibits the zero-time sentinel defect outside "
-                  "the guard. Model tied to TickCandler/CandleCandler by bit-exact in-Coq evaluation on every run.",
+                  "timestamps and NaN-free prices (C21_order_independent). C21_refuted / C21_order_refuted exhibit the zero-time sentinel and the NaN "
+                  "order dependence outside the guards. Model tied to TickCandler/CandleCandler by bit-exact in-Coq evaluation on every run.",
     "level_note": "Axioms: only the standard real-number/classical axioms inherited from Flocq's float operations. Trusted: Coq kernel/VM, "
                   "Flocq, gen translator, harness. Modelled not verified: contrib/candler/*.go, utils/timeframe.go (Truncate/IsWithin, "
                   "sub-day and day), ColumnSeries.GetTime, uda.ColumnToFloat32.",
